@@ -35,6 +35,7 @@ WRAPPERS = [o[0] for o in OPS if o[4]]
 # adversarial operand spellings; validated by lab's independent splitter before use
 EXPR_POOL = [
     "f", "|v| v + 1", "|v: u32| -> u32 { v + 1 }", "|a, b| a + b", "move |v| v", "|_| None::<u8>",
+    "|v| n > *v", "|n| n >> 1", "|n| n >= 2", "move |n| n > 3",
     "Some(1)", "Ok::<_, ()>(2)", "foo::<u8, Vec<Vec<u8>>>", "Vec::<Vec<Vec<u8>>>::new()", "(|v| v)",
     "(a, b)", "{ let x = 1; move |v| v + x }", "{ y }", "match v { Some(x) => x, _ => 0 }",
     "|v| match v { 1 => 2, _ => 3 }", "|v| if v > 1 { v } else { 0 }", "join! { a |> b }",
@@ -630,6 +631,13 @@ def total_cases(rng, pools, tier):
             has_fcp = any(k == "futures_crate_path" for k, _ in inp.options)
             valid_cfg = handler_ok(handler, cfg) and (not has_fcp or cfg & 2)
             add("V" if valid_cfg else "I:config", text, [cfg])
+    # ---- an identifier of the caller that is spelled like an option (or like a handler keyword) and is not followed by what the
+    # option syntax needs: a diagnostic or a branch, in any case an answer
+    for k, head in enumerate(["transpose_results", "custom_joiner", "futures_crate_path", "lazy_branches", "map", "then", "and_then"]):
+        for tail in ("..len()", "|> f", ", b", "-> g, c", ""):
+            add("U", "%s %s" % (head, tail), [k % 8])
+            add("U", "lazy_branches(true) %s %s" % (head, tail), [(k + 3) % 8])
+            add("U", "a |> f, %s %s" % (head, tail), [(k + 5) % 8])
     # ---- unlabelled: random token soups and random edits of valid inputs
     nsoup = 3000 if tier == "quick" else 40000
     for i in range(nsoup):
